@@ -375,6 +375,7 @@ func c04Cold(ctx *rt.Ctx, p c04Params, outcome *string) vsched.Scenario {
 	if p.Scenario == "S5b" {
 		n = 3
 	}
+	withSchema := p.Scenario == "S6" // a third thread reads the schema while the index is still cold
 	want := make([]string, n)
 	for t := 0; t < n; t++ {
 		sel, _ := data.Eval(qs[t].Expr)
@@ -403,9 +404,21 @@ func c04Cold(ctx *rt.Ctx, p c04Params, outcome *string) vsched.Scenario {
 				got[t] = renderResult(res, err)
 			})
 		}
+		var schemas [][][]string
+		if withSchema {
+			bodies = append(bodies, func() {
+				schemas = append(schemas, schemaOf(idx))
+				schemas = append(schemas, schemaOf(idx))
+			})
+		}
 		check := func(r *vsched.Result) string {
 			idx.Close()
 			os.Remove(path)
+			for _, s := range schemas {
+				if !reflect.DeepEqual(s, data.Schema()) {
+					return fmt.Sprintf("GetSchema returned %v", s)
+				}
+			}
 			for t := range got {
 				if got[t] != want[t] {
 					return fmt.Sprintf("thread %d returned %s, alone it returns %s", t, got[t], want[t])
@@ -428,7 +441,7 @@ func c04Worker(ctx *rt.Ctx, job *rt.Job) []*rt.Violation {
 	json.Unmarshal(j.Params, &p)
 	var outcome string
 	var sc vsched.Scenario
-	if p.Scenario == "S5" || p.Scenario == "S5b" {
+	if p.Scenario == "S5" || p.Scenario == "S5b" || p.Scenario == "S6" {
 		return e3Explore(ctx, "C04", j, c04Cold(ctx, p, &outcome), func() string { return string(j.Params) + outcome })
 	}
 	if p.Scenario == "S4" || p.Scenario == "S4b" {
@@ -550,11 +563,11 @@ func c04Run(ctx *rt.Ctx) []*rt.Violation {
 		b, _ := json.Marshal(e3Job{Scenario: p.Scenario, Params: pb, Bound: bound})
 		jobs = append(jobs, rt.Job{Name: fmt.Sprintf("%s-%v-%s-b%d", p.Scenario, p.Preload, p.Cache, bound), NShards: 1, Args: b})
 	}
-	bounds := map[string]int{"S1": 2, "S2": 2, "S3": 2, "S4": 3, "S4b": 2, "S5": 2, "S5b": 1}
+	bounds := map[string]int{"S1": 2, "S2": 2, "S3": 2, "S4": 3, "S4b": 2, "S5": 2, "S5b": 1, "S6": 1}
 	if ctx.Thorough() {
-		bounds = map[string]int{"S1": 4, "S2": 3, "S3": 3, "S4": 5, "S4b": 3, "S5": 3, "S5b": 2}
+		bounds = map[string]int{"S1": 4, "S2": 3, "S3": 3, "S4": 5, "S4b": 3, "S5": 3, "S5b": 2, "S6": 2}
 	}
-	for _, s := range []string{"S5", "S5b"} {
+	for _, s := range []string{"S5", "S5b", "S6"} {
 		for _, pre := range []bool{false, true} {
 			for _, c := range []string{"ample", "none"} {
 				add(c04Params{Scenario: s, Preload: pre, Cache: c}, bounds[s])
